@@ -129,6 +129,10 @@ impl Lintable for FunctionBody
 		{
 			statement.lint(linter);
 		}
+		if let Some(return_value) = &self.return_value
+		{
+			return_value.lint(linter);
+		}
 	}
 }
 
@@ -215,6 +219,9 @@ impl Lintable for Statement
 				location: _,
 			} =>
 			{
+				condition.left.lint(linter);
+				condition.right.lint(linter);
+
 				linter.is_first_statement_of_branch = None;
 
 				linter.is_naked_branch = Some(NakedBranch {
